@@ -2157,4 +2157,254 @@ theorem cr_counterexample' :
     decodeAll c (serialize [[91, 13, 93]]) = some [⟨.ver, 0, 0⟩] ∧ decodeAllU c (serialize [[91, 13, 93]]) = none := by
   decide
 
+/-! ### Phase 5: `_max_chunker` (batches + the extracted program), DiskSink's write loop, windowed torn-tail repair, shape test -/
+
+theorem batches_go_nil (m f : Nat) : batches.go m [] f = [] := by cases f <;> simp [batches.go]
+
+theorem batches_go_bounds (m : Nat) (hm : 1 ≤ m) (l : List Task) (f : Nat) :
+    ∀ b ∈ batches.go m l f, b ≠ [] ∧ b.length ≤ m := by
+  induction f generalizing l with
+  | zero => intro b hb; simp [batches.go] at hb
+  | succ f ih =>
+    intro b hb
+    cases l with
+    | nil => simp [batches.go] at hb
+    | cons a as =>
+      simp only [batches.go, List.isEmpty_cons, Bool.false_eq_true, if_false, List.mem_cons] at hb
+      rcases hb with rfl | hb
+      · refine ⟨?_, List.length_take_le _ _⟩
+        obtain ⟨k, rfl⟩ : ∃ k, m = k + 1 := ⟨m - 1, by omega⟩
+        simp
+      · exact ih _ b hb
+
+theorem batches_go_full (m : Nat) (l : List Task) (f : Nat) :
+    ∀ b ∈ (batches.go m l f).dropLast, b.length = m := by
+  induction f generalizing l with
+  | zero => intro b hb; simp [batches.go] at hb
+  | succ f ih =>
+    intro b hb
+    cases l with
+    | nil => simp [batches.go] at hb
+    | cons a as =>
+      simp only [batches.go, List.isEmpty_cons, Bool.false_eq_true, if_false] at hb
+      by_cases hx : batches.go m ((a :: as).drop m) f = []
+      · rw [hx] at hb; simp at hb
+      · rw [List.dropLast_cons_of_ne_nil hx, List.mem_cons] at hb
+        rcases hb with rfl | hb
+        · have h1 : (a :: as).drop m ≠ [] := fun e => hx (by rw [e]; exact batches_go_nil m f)
+          have h2 : m < (a :: as).length := by
+            by_contra h; exact h1 (List.drop_eq_nil_of_le (by omega))
+          rw [List.length_take]; omega
+        · exact ih _ b hb
+
+theorem resume_chunking_complete' (k : Nat) (hk : 1 ≤ k) (l : List Task) :
+    (batches k l).flatten = l ∧ (∀ b ∈ batches k l, b ≠ [] ∧ b.length ≤ k) ∧ (∀ b ∈ (batches k l).dropLast, b.length = k) := by
+  refine ⟨batches_flatten k l, ?_, ?_⟩
+  · have : k ≠ 0 := by omega
+    unfold batches; simp only [this, if_false]; exact batches_go_bounds k hk l _
+  · have : k ≠ 0 := by omega
+    unfold batches; simp only [this, if_false]; exact batches_go_full k l _
+
+theorem resume_chunks_nodup' (chunkOf : Nat → Option Nat) (k : Nat) (K : List Rec) (triples : List (Nat × Nat × Nat))
+    (h : (makeTasks true K triples).Nodup) :
+    (chunkTasks chunkOf k (makeTasks true K triples)).flatten.Perm (makeTasks true K triples) ∧
+    (chunkTasks chunkOf k (makeTasks true K triples)).flatten.Nodup :=
+  ⟨chunkTasks_flatten_perm _ _ _, (chunkTasks_flatten_perm _ _ _).nodup_iff.mpr h⟩
+
+theorem execWhile_go (m : Nat) (hm : m ≠ 0) (f : Nat) (r : List Task) (out : List (List Task)) :
+    (execWhile m [.yieldBatch, .takeBatch] f ⟨r.drop m, r.take m, out⟩).out = out ++ batches.go m r f := by
+  induction f generalizing r out with
+  | zero => simp [execWhile, batches.go]
+  | succ f ih =>
+    cases r with
+    | nil => simp [execWhile, batches.go]
+    | cons a as =>
+      obtain ⟨k, rfl⟩ : ∃ k, m = k + 1 := ⟨m - 1, by omega⟩
+      have := ih ((a :: as).drop (k+1)) (out ++ [(a :: as).take (k+1)])
+      simp only [execWhile, batches.go, List.take_succ_cons, List.isEmpty_cons, Bool.false_eq_true, if_false,
+        execBody, List.foldl_cons, List.foldl_nil, stepSimple, hm] at this ⊢
+      rw [this]; simp
+
+theorem max_chunker_prog_eq_batches' (m : Nat) (l : List Task) : runChunker maxChunkerProg m l = batches m l := by
+  unfold runChunker maxChunkerProg batches
+  by_cases hm : m = 0
+  · subst hm
+    cases l with
+    | nil => simp [execProg, stepSimple, execWhile]
+    | cons a as =>
+      simp [execProg, stepSimple, execWhile, execBody]
+      cases as.length <;> simp [execWhile]
+  · simp only [execProg, stepSimple, hm, if_false]
+    exact (execWhile_go m hm l.length l []).trans (by simp)
+
+theorem sinkWrite_go_one (f : Nat) (l : List Bytes) (h : l.length < f) :
+    sinkWrite.go 1 f l = l.map (fun x => [x]) ++ [[]] := by
+  induction f generalizing l with
+  | zero => omega
+  | succ f ih =>
+    cases l with
+    | nil => simp [sinkWrite.go]
+    | cons a as =>
+      simp [sinkWrite.go]
+      exact ih as (by simpa using h)
+
+theorem gz_member_per_record' (lines : List Bytes) : sinkWrite 1 lines = lines.map (fun x => [x]) ++ [[]] := by
+  simp only [sinkWrite, Nat.one_ne_zero, if_false]
+  exact sinkWrite_go_one _ _ (by omega)
+
+theorem sinkWrite_go_flatten (b : Nat) (hb : b ≠ 0) (f : Nat) (l : List Bytes) (h : l.length < f) :
+    (sinkWrite.go b f l).flatten = l := by
+  induction f generalizing l with
+  | zero => omega
+  | succ f ih =>
+    simp only [sinkWrite.go]
+    split
+    · rename_i ht
+      rw [List.length_take] at ht
+      simp only [List.flatten_cons]
+      rw [ih _ (by rw [List.length_drop]; omega), List.take_append_drop]
+    · rename_i ht
+      rw [List.length_take] at ht
+      simp only [List.flatten_cons, List.flatten_nil, List.append_nil]
+      exact List.take_of_length_le (by omega)
+
+theorem sink_write_complete' (b : Nat) (lines : List Bytes) : (sinkWrite b lines).flatten = lines := by
+  unfold sinkWrite
+  by_cases hb : b = 0
+  · simp [hb]
+  · simp only [hb, if_false]; exact sinkWrite_go_flatten b hb _ _ (by omega)
+
+theorem splitNL_lines_ne_nil (X : Bytes) (h : NL ∈ X) : (splitNL X).1 ≠ [] := by
+  induction X with
+  | nil => simp at h
+  | cons b bs ih =>
+    simp only [splitNL]
+    by_cases hb : b = NL
+    · simp [hb]
+    · have : NL ∈ bs := by
+        rcases List.mem_cons.mp h with e | e
+        · exact absurd e.symm hb
+        · exact e
+      have := ih this
+      simp only [hb, if_false]
+      cases h1 : (splitNL bs).1 with
+      | nil => exact absurd h1 this
+      | cons l ls => simp
+
+theorem splitNL_cons_of_mem (a : Nat) (X : Bytes) (h : NL ∈ X) :
+    (splitNL (a :: X)).2 = (splitNL X).2 ∧ serialize (splitNL (a :: X)).1 = a :: serialize (splitNL X).1 := by
+  have hne := splitNL_lines_ne_nil X h
+  simp only [splitNL]
+  by_cases ha : a = NL
+  · simp [ha, serialize]
+  · simp only [ha, if_false]
+    cases h1 : (splitNL X).1 with
+    | nil => exact absurd h1 hne
+    | cons l ls => simp [serialize]
+
+theorem repair_cons_of_mem (c : Codec) (a : Nat) (X : Bytes) (h : NL ∈ X) : repair c (a :: X) = a :: repair c X := by
+  obtain ⟨h1, h2⟩ := splitNL_cons_of_mem a X h
+  unfold repair
+  simp only [h1, h2]
+  split
+  · rfl
+  · split
+    · rfl
+    · rfl
+
+theorem repair_append_of_mem (c : Codec) (A B : Bytes) (h : NL ∈ B) : repair c (A ++ B) = A ++ repair c B := by
+  induction A with
+  | nil => rfl
+  | cons a as ih =>
+    rw [List.cons_append, repair_cons_of_mem c a (as ++ B) (List.mem_append_right _ h), ih]; rfl
+
+theorem drop_torn_tail_window_independent' (c : Codec) (W : Nat) (file : Bytes)
+    (h : NL ∈ file.drop (file.length - W) ∨ file.length ≤ W) : repairWin c W file = repair c file := by
+  unfold repairWin
+  rcases h with h | h
+  · rw [← repair_append_of_mem c _ _ h, List.take_append_drop]
+  · have : file.length - W = 0 := by omega
+    simp [this]
+
+theorem window_counterexample' :
+    let c := tableCodec [(⟨.ver, 0, 0⟩, [91, 93])]
+    let file : Bytes := [91, 93, 10, 91, 91, 91, 91]
+    repair c file = [91, 93, 10] ∧ decodeAll c (repair c file) = some [⟨.ver, 0, 0⟩] ∧
+    repairWin c 2 file = [91, 93, 10, 91, 91] ∧ decodeAll c (repairWin c 2 file) = none ∧
+    repairWin c 5 file = repair c file := by
+  decide
+
+theorem shape_ignores_evaluators' (ts : List (Nat × Nat × Nat)) (g : Nat × Nat × Nat → Nat) :
+    givenShape (ts.map (fun t => (t.1, t.2.1, g t))) = givenShape ts := by
+  simp [givenShape, List.map_map, Function.comp_def]
+
+/-! ### Phase 5: multi-process order — interleavings of the per-chunk sequences -/
+
+theorem flatten_all_nil {α : Type} (ls : List (List α)) (h : ∀ l ∈ ls, l = []) : ls.flatten = [] := by
+  induction ls with
+  | nil => rfl
+  | cons a as ih =>
+    have := h a (by simp); subst this
+    simpa using ih (fun l hl => h l (List.mem_cons_of_mem _ hl))
+
+theorem merge_perm' {α : Type} (ls : List (List α)) (out : List α) (h : Merge ls out) : out.Perm ls.flatten := by
+  induction h with
+  | done ls hn => rw [flatten_all_nil ls hn]
+  | step pre post x l out _ ih =>
+    simp only [List.flatten_append, List.flatten_cons, List.cons_append] at ih ⊢
+    exact (List.Perm.cons x ih).trans List.perm_middle.symm
+
+theorem merge_sublist' {α : Type} (ls : List (List α)) (out : List α) (h : Merge ls out) : ∀ l ∈ ls, l.Sublist out := by
+  induction h with
+  | done ls hn => intro l hl; rw [hn l hl]
+  | step pre post x l out _ ih =>
+    intro l' hl'
+    rcases List.mem_append.mp hl' with hp | hp
+    · exact (ih l' (List.mem_append_left _ hp)).cons x
+    · rcases List.mem_cons.mp hp with rfl | hp
+      · exact (ih l (List.mem_append_right _ (List.mem_cons_self))).cons_cons x
+      · exact (ih l' (List.mem_append_right _ (List.mem_cons_of_mem _ hp))).cons x
+
+/-- the sequential run is one of the interleavings -/
+theorem merge_flatten' {α : Type} (ls : List (List α)) : Merge ls ls.flatten := by
+  induction ls with
+  | nil => exact Merge.done [] (by simp)
+  | cons a as ih =>
+    induction a with
+    | nil =>
+      simp only [List.flatten_cons, List.nil_append]
+      -- adding an empty sequence in front
+      have : ∀ (ls : List (List α)) (out : List α), Merge ls out → Merge ([] :: ls) out := by
+        intro ls out h
+        induction h with
+        | done ls hn => exact Merge.done _ (by intro l hl; rcases List.mem_cons.mp hl with rfl | hl; rfl; exact hn l hl)
+        | step pre post x l out _ ih2 => exact Merge.step ([] :: pre) post x l out ih2
+      exact this _ _ ih
+    | cons x xs ihx =>
+      simp only [List.flatten_cons, List.cons_append] at ihx ⊢
+      exact Merge.step [] as x xs _ ihx
+
+theorem multiprocess_order' (w : World) (hw : w.OK) (L : List Rec) (hL : ValidLog w L) (k : Nat)
+    (chunkOf : Nat → Option Nat) (m : Nat) :
+    ∃ K, restore Flags.fixed w.c (some (cut w L k)) = some ⟨logFile w K, K⟩ ∧ K <+: L ∧
+      ∀ app, Merge ((chunkTasks chunkOf m (makeTasks true K w.triples)).map (fun c => (processOrder c).filterMap w.out)) app →
+        (∀ c ∈ chunkTasks chunkOf m (makeTasks true K w.triples), ((processOrder c).filterMap w.out).Sublist app) ∧
+        let o := finish w.c ⟨logFile w K, K⟩ (makeTasks true K w.triples) (preamble Flags.fixed w.ver w.exp K) app
+        o.file = logFile w (K ++ o.appended) ∧ o.final = some (K ++ o.appended) ∧ ValidLog w (K ++ o.appended) ∧
+        (K ++ o.appended).Perm w.universe ∧ (∀ t ∈ o.tasks, ∀ r ∈ K, r.key ≠ t.key) := by
+  obtain ⟨j, p, K, _, _, hKL, _, hrest, hall⟩ := resume_correct' w hw L hL k
+  refine ⟨K, hrest, hKL, ?_⟩
+  intro app hm
+  refine ⟨fun c hc => merge_sublist' _ _ hm _ (List.mem_map_of_mem hc), hall app ?_⟩
+  have h1 := merge_perm' _ _ hm
+  have h2 : ((chunkTasks chunkOf m (makeTasks true K w.triples)).map (fun c => (processOrder c).filterMap w.out)).flatten
+      = ((runOrder chunkOf m (makeTasks true K w.triples)).filterMap w.out) := by
+    unfold runOrder
+    generalize chunkTasks chunkOf m (makeTasks true K w.triples) = cs
+    induction cs with
+    | nil => rfl
+    | cons c cs ih => simp [List.flatMap_cons, List.filterMap_append, ih]
+  rw [h2] at h1
+  exact h1.trans ((runOrder_perm' chunkOf m _).filterMap w.out)
+
 end Coba.C02
